@@ -5,11 +5,18 @@ import (
 	"bytes"
 	"encoding/binary"
 	"fmt"
+	"strings"
 	"testing"
+	"testing/fstest"
 
+	"github.com/spf13/afero"
 	"pgregory.net/rapid"
 
+	"github.com/foxboron/go-uefi/efi"
+	"github.com/foxboron/go-uefi/efi/attributes"
+	efifs "github.com/foxboron/go-uefi/efi/fs"
 	"github.com/foxboron/go-uefi/efi/signature"
+	"github.com/foxboron/go-uefi/efivarfs/testfs"
 
 	"verifharness/adapt"
 	"verifharness/gen"
@@ -210,6 +217,81 @@ func checkInput(in []byte, class string) error {
 	return nil
 }
 
+const (
+	efidir = "/sys/firmware/efi/efivars/"
+	global = "8be4df61-93ca-11d2-aa0d-00e098032b8c"
+	secdb  = "d719b2cb-3d3a-4596-a3bc-dad00e67656f"
+)
+
+// checkRoutes asks the other decoding entry points for the same bytes: Unmarshal, and the typed getters of the
+// object API and of the legacy package-level API, which decode the content of PK / KEK / db / dbx variable files.
+// For every route: a database returned without an error has to be the one the reference decodes from all of the input.
+func checkRoutes(in []byte, class string) error {
+	want, rerr := esl.Decode(in)
+	judge := func(route string, db *signature.SignatureDatabase, lerr error) error {
+		if lerr != nil {
+			hx.Class("route_rejects/" + route)
+			return nil
+		}
+		hx.Class("route_accepts/" + route)
+		if db == nil {
+			return fmt.Errorf("%s returned neither a database nor an error [%s]; input %x", route, class, in)
+		}
+		if rerr != nil {
+			got, _ := adapt.DBFromLib(*db)
+			return fmt.Errorf("%s returned %d lists (%d entries) and no error for a %d-byte variable content the reference rejects (%v) [%s]; input %x", route, len(*db), len(esl.Flatten(got)), len(in), rerr, class, in)
+		}
+		got, err := adapt.DBFromLib(*db)
+		if err != nil {
+			return fmt.Errorf("%s: decoded database inconsistent: %v; input %x", route, err, in)
+		}
+		if err := esl.EqualLists(got, want); err != nil {
+			return fmt.Errorf("%s: decoded database differs from the reference decoding (library vs reference): %v; input %x", route, err, in)
+		}
+		return nil
+	}
+	var u signature.SignatureDatabase
+	uerr := u.Unmarshal(bytes.NewBuffer(append([]byte{}, in...)))
+	if err := judge("Unmarshal", &u, uerr); err != nil {
+		return err
+	}
+	file := append([]byte{0x27, 0, 0, 0}, in...)
+	vars := []struct{ name, guid string }{{"PK", global}, {"KEK", global}, {"db", secdb}, {"dbx", secdb}}
+	for i, v := range vars {
+		e := testfs.NewTestFS().With(fstest.MapFS{efidir + v.name + "-" + v.guid: {Data: file}}).Open()
+		var db *signature.SignatureDatabase
+		var err error
+		switch i {
+		case 0:
+			db, err = e.GetPK()
+		case 1:
+			db, err = e.GetKEK()
+		case 2:
+			db, err = e.Getdb()
+		default:
+			db, err = e.Getdbx()
+		}
+		if err := judge("efivarfs getter of "+v.name, db, err); err != nil {
+			return err
+		}
+	}
+	mem := afero.NewMemMapFs()
+	for _, v := range vars {
+		afero.WriteFile(mem, efidir+v.name+"-"+v.guid, file, 0644)
+	}
+	saved, savedDir := efifs.Fs, attributes.Efivars
+	efifs.SetFS(mem)
+	attributes.Efivars = strings.TrimSuffix(efidir, "/")
+	defer func() { efifs.SetFS(saved); attributes.Efivars = savedDir }()
+	for i, f := range []func() (*signature.SignatureDatabase, error){efi.GetPK, efi.GetKEK, efi.Getdb, efi.Getdbx} {
+		db, err := f()
+		if err := judge("legacy efi getter of "+vars[i].name, db, err); err != nil {
+			return err
+		}
+	}
+	return nil
+}
+
 func checkCase(c Case) error {
 	in := apply(c.Stream, c.Muts)
 	class := "unmutated"
@@ -228,6 +310,9 @@ func checkCase(c Case) error {
 	if err := checkInput(in, class); err != nil {
 		return err
 	}
+	if err := checkRoutes(in, class); err != nil {
+		return err
+	}
 	if c.AllCuts && len(in) <= 1500 {
 		for cut := 0; cut < len(in); cut++ {
 			if _, err := esl.Decode(in[:cut]); err != nil {
@@ -235,6 +320,11 @@ func checkCase(c Case) error {
 			}
 			if err := checkInput(in[:cut], "every_truncation_point"); err != nil {
 				return fmt.Errorf("truncated to %d of %d bytes: %w", cut, len(in), err)
+			}
+			if cut%8 == len(in)%8 || cut < 64 {
+				if err := checkRoutes(in[:cut], "every_truncation_point"); err != nil {
+					return fmt.Errorf("truncated to %d of %d bytes: %w", cut, len(in), err)
+				}
 			}
 		}
 	}
@@ -283,10 +373,18 @@ func FuzzC08(f *testing.F) {
 		if len(in) > 1<<16 {
 			return nil
 		}
-		return checkInput(in, "native_fuzz")
+		if err := checkInput(in, "native_fuzz"); err != nil {
+			return err
+		}
+		return checkRoutes(in, "native_fuzz")
 	}))
 }
 
 func TestC08FuzzReplay(t *testing.T) {
-	hx.FuzzReplay(t, "C08", map[string]func([]byte) error{"FuzzC08": func(in []byte) error { return checkInput(in, "native_fuzz") }})
+	hx.FuzzReplay(t, "C08", map[string]func([]byte) error{"FuzzC08": func(in []byte) error {
+		if err := checkInput(in, "native_fuzz"); err != nil {
+			return err
+		}
+		return checkRoutes(in, "native_fuzz")
+	}})
 }
